@@ -35,8 +35,10 @@ def main():
                 continue
             if "prop" not in s:
                 continue
-            screens.append({"check": s["prop"], "tier": s["tier"], "detected": bool(s.get("detected")), "exit": s.get("exit"),
-                            "new_failing_inputs": s.get("new_keys"), "sample": (s.get("new_samples") or s.get("new_detail_lines") or s.get("detail") or [None])[0]})
+            rnd = "final" if f.endswith("_rF.json") else ("second" if f.endswith("_r2.json") else "first")
+            screens.append({"round": rnd, "check": s["prop"], "tier": s["tier"], "detected": bool(s.get("detected")), "exit": s.get("exit"),
+                            "new_failing_inputs": s.get("new_keys") if s.get("new_keys") is not None else s.get("violation_lines"),
+                            "sample": (s.get("new_samples") or s.get("new_detail_lines") or s.get("detail") or [None])[0]})
         if not confirmed:
             rows.append((sid, meta, conf, screens, False))
             continue
@@ -50,21 +52,26 @@ def main():
         meta["confirmed_on_final_tree"] = {x: conf.get(x) for x in ("applies", "builds", "demo_passes_without", "demo_fails_with", "suite_passes")}
         meta["demo_cmd_used"] = conf.get("demo_cmd")
         meta["checks_run"] = screens
-        meta["caught_by"] = sorted({f"{s['check']} {s['tier']}" for s in screens if s["detected"]})
+        meta["caught_by"] = sorted({f"{s['check']} {s['tier']} ({s['round']} round)" for s in screens if s["detected"]})
         json.dump(meta, open(os.path.join(out, "meta.json"), "w"), indent=1, ensure_ascii=False)
         rows.append((sid, meta, conf, screens, True))
     with open(os.path.join(V, "seeded", "TABLE.md"), "w") as fh:
-        fh.write("| change | files | what it needs to show | caught by | not caught by |\n|---|---|---|---|---|\n")
+        fh.write("Rounds: *first* = the machinery as it was when the changes were delivered (quick tier of the change's own property); "
+                 "*second* = after the strengthening described in DESIGN.md section 10 (quick tier); *final* = the committed machinery with the "
+                 "committed known-findings lists (a VIOLATION line = caught).\n\n")
+        fh.write("| change | files | what it needs to show | first round | caught by (second / final) | still missed by |\n|---|---|---|---|---|---|\n")
         for sid, meta, conf, screens, kept in rows:
             if not kept:
                 continue
-            caught = ", ".join(sorted({f"{s['check']} {s['tier']}" for s in screens if s["detected"]})) or "-"
-            missed = ", ".join(sorted({f"{s['check']} {s['tier']}" for s in screens if not s["detected"]})) or "-"
-            need = (meta.get("needs_to_manifest") or "")[:160].replace("|", "\\|").replace("\n", " ")
-            fh.write(f"| {sid} | {', '.join(meta.get('files', []))} | {need} | {caught} | {missed} |\n")
+            first = ", ".join(sorted({f"{s['check']} {s['tier']}: {'caught' if s['detected'] else 'missed'}" for s in screens if s["round"] == "first"})) or "-"
+            later = [s for s in screens if s["round"] != "first"]
+            caught = sorted({f"{s['check']} {s['tier']}" for s in later if s["detected"]})
+            missed = sorted({f"{s['check']} {s['tier']}" for s in later if not s["detected"]} - set(caught))
+            need = (meta.get("needs_to_manifest") or "")[:140].replace("|", "\\|").replace("\n", " ")
+            fh.write(f"| {sid} | {', '.join(meta.get('files', []))} | {need} | {first} | {', '.join(caught) or '-'} | {', '.join(missed) or '-'} |\n")
         dropped = [sid for sid, *_r, kept in rows if not kept]
         if dropped:
-            fh.write("\nNot kept (not confirmed on the final tree: patch no longer applies, the existing suite fails with it, or the demonstration does not separate): " + ", ".join(dropped) + "\n")
+            fh.write("\nNot kept (not confirmed on the final tree: the existing suite fails with it, or a duplicate): " + ", ".join(dropped) + "\n")
     print(len([r for r in rows if r[4]]), "kept,", len([r for r in rows if not r[4]]), "dropped")
 
 
